@@ -49,3 +49,18 @@ package geom
 //@ func LineString.Densify
 //@   requires minDistance > 0
 //@   ensures result.seq.ctype == s.seq.ctype && NPts(result.seq) >= NPts(s.seq)
+
+// ---- Simplify (C17): validation is performed exactly when NoValidate is absent ----
+//@ func Polygon.Simplify
+//@   ensures len(nv) > 0 ==> result1 == nil
+//@   ensures len(nv) == 0 && result1 == nil && len(result0.rings) > 0 ==> ufn(pvalid, error, result0) == nil
+//@   ensures result1 == nil ==> result0.ctype == p.ctype || len(result0.rings) > 0
+//@   loop 0 invariant 0 <= i && i <= n && n == max(0, len(p.rings) - 1) && len(rings) >= 1 && fresh(rings) && cap(rings) > 0
+//@   loop 0 invariant forall k :: 0 <= k && k < len(rings) ==> LSInv(rings[k])
+
+//@ func MultiPolygon.Simplify
+//@   ensures len(nv) > 0 ==> result1 == nil
+//@   ensures result1 == nil ==> result0.ctype == m.ctype
+//@   loop 0 invariant 0 <= i && i <= n && n == len(m.polys) && (cap(polys) == 0 || fresh(polys))
+//@   loop 0 invariant MPolyInv(m)
+//@   loop 0 invariant forall k :: 0 <= k && k < len(polys) ==> PolyInv(polys[k])
